@@ -59,6 +59,44 @@ def oracle(a, tree, rng):
     return None
 
 
+FP_SHAPES = ["fp:neg-neg", "fp:abs-neg", "fp:neg-neg-plus", "fp:ite-same-after-rewrite", "fp:to-bv-of-bv"]
+
+
+def simplify_annotated(spec, n=0):
+    """results of claripy.simplify on an expression whose ROOT carries an annotation (and further operations over them);
+    -> (annotated input, [(label, ast), ...]); spec = {"tree": written tree | "fp": shape name, "anno": Elim|Keep|Reloc|Avoid, "inner": bool}"""
+    import props.C07 as C07
+    an = {"Elim": C07.Elim, "Keep": C07.Keep, "Reloc": C07.Reloc, "Avoid": C07.Avoid}[spec["anno"]](n)
+    if "fp" in spec:
+        D = claripy.FSORT_DOUBLE
+        f, g = claripy.FPS("f_sa", D, explicit_name=True), claripy.FPS("g_sa", D, explicit_name=True)
+        x = claripy.BVS("x_sa", 64, explicit_name=True)
+        rm = claripy.fp.RM.default()
+        a = {"fp:neg-neg": lambda: claripy.fpNeg(claripy.fpNeg(f)), "fp:abs-neg": lambda: claripy.fpAbs(claripy.fpNeg(f)),
+             "fp:neg-neg-plus": lambda: claripy.fpAdd(rm, claripy.fpNeg(claripy.fpNeg(f)), g),
+             "fp:ite-same-after-rewrite": lambda: claripy.If(x == 3, claripy.fpNeg(claripy.fpNeg(f)), f),
+             "fp:to-bv-of-bv": lambda: claripy.fpToIEEEBV(claripy.fpToFP((x + 1) - 1, D))}[spec["fp"]]()
+    else:
+        a = E.build(spec["tree"])
+    if not isinstance(a, claripy.ast.Base) or a.is_leaf():
+        return None, []
+    tagged = a.annotate(an)
+    if spec.get("inner") and isinstance(tagged, claripy.ast.BV):
+        # the annotated expression as an operand: simplify of the parent meets the annotation one level down
+        tagged_in = tagged
+        tagged = tagged_in + claripy.BVV(0, tagged_in.length) * claripy.BVS("pad_sa", tagged_in.length, explicit_name=True) if spec["inner"] == "pad" else tagged_in
+    s = claripy.simplify(tagged)
+    out = [("simplify-annotated", s)]
+    if isinstance(s, claripy.ast.BV):
+        out += [("simplify-annotated+1", s + 1), ("simplify-annotated-concat", claripy.Concat(s, s)),
+                ("simplify-annotated-twice", claripy.simplify(s ^ claripy.BVS("q_sa", s.length, explicit_name=True)))]
+    elif isinstance(s, claripy.ast.FP):
+        out += [("simplify-annotated-fpAbs", claripy.fpAbs(s)), ("simplify-annotated-isnan", claripy.fpIsNaN(s))]
+    elif isinstance(s, claripy.ast.Bool):
+        out += [("simplify-annotated-not", claripy.Not(s))]
+    return tagged, out
+
+
 KEEP = []
 
 
@@ -214,6 +252,42 @@ def run(ctx):
         if rng.random() < 0.3:
             for origin, d in derived(a, rng):
                 check_ast(origin, d)
+    # ---- claripy.simplify of expressions whose ROOT carries an annotation and which the solver's simplifier really rewrites (to a leaf,
+    # a constant, a smaller node): the result is re-annotated by simplify — its metadata (and that of everything built over it) obeys the
+    # same oracle.  Fresh annotation objects, so no live twin of the result exists in the hash table.
+    import random
+    srng = random.Random("C05-simplify-annotated:%d" % ctx.seed)      # own stream: the older stages keep theirs
+    rewritten = 0
+    for k in range(ctx.pick(500, 8000)):
+        uniq[0] += 1
+        r0 = srng.random()
+        if r0 < 0.08:
+            spec = {"fp": srng.choice(FP_SHAPES)}
+            name = spec["fp"]
+        else:
+            name, tree = G.z3_rewritable(srng) if r0 < 0.6 else G.rule_directed(srng) if r0 < 0.8 else G.random_tree(srng)
+            spec = {"tree": tree}
+        spec["anno"] = srng.choice(["Elim", "Elim", "Keep", "Reloc", "Avoid"])
+        spec["inner"] = srng.choice([None, None, None, "pad"])
+        try:
+            tagged, res = simplify_annotated(spec, 100000 + uniq[0])
+        except (claripy.errors.ClaripyError, E.Unsupported, TypeError):
+            continue
+        if tagged is None:
+            continue
+        dist["SA." + name.split("+")[0]] += 1
+        if res[0][1].op != tagged.op or len(res[0][1].args) != len(tagged.args):
+            rewritten += 1
+        before = found
+        for origin, d in res:
+            check_ast(origin, d)
+        if found > before:
+            # the failing nodes arise only through this route: record the route itself
+            ctx.violation("C05/simplify-annotated/%s/%s" % (spec["anno"], "stale-metadata"),
+                          "claripy.simplify(%r annotated %s) = %r and the expressions over it: metadata differs from the recomputation" % (tagged, spec["anno"], res[0][1]),
+                          {"simplify_annotated": spec})
+        del tagged, res
+    dist["SA.rewritten_by_the_solver"] = rewritten
     outs = ctx.driver(lines) if lines else []
     agree = 0
     for o, (w, occ, depth, sym, varset, sx) in zip(outs, expect):
@@ -234,6 +308,26 @@ def run(ctx):
 def replay(ctx, obj):
     def tup(t):
         return tuple(tup(x) if isinstance(x, list) else x for x in t)
+    if "simplify_annotated" in obj["replay"]:
+        spec = dict(obj["replay"]["simplify_annotated"])
+        if "tree" in spec:
+            spec["tree"] = tup(spec["tree"])
+        tagged, res = simplify_annotated(spec, 1)
+        bad_any = 0
+        for origin, d in res:
+            for sub in [d] + list(d.children_asts()):
+                try:
+                    t_ = E.from_ast(sub)
+                except E.Unsupported:
+                    t_ = None
+                bad = oracle(sub, t_, ctx.rng)
+                if bad:
+                    bad_any += 1
+                    print("%s: %r (op %s, annotations %r): %s" % (origin, sub, sub.op, sub.annotations, bad))
+        print("claripy.simplify(%r) = %r" % (tagged, res[0][1] if res else None))
+        if bad_any:
+            print("VIOLATION property=C05 replay=(given)"); return 1
+        print("metadata consistent on the current tree"); return 0
     t = tup(obj["replay"]["tree"])
     a = E.build(t)
     bad = oracle(a, E.from_ast(a), ctx.rng)
